@@ -21,6 +21,17 @@
 //! (f32 narrowed). axisswap: all 442 orders; adapt: every spelling as from and as to per
 //! kind; unitconvert: every xy pair and every z pair per kind.
 //!
+//! Magnitudes: "scaled by the declared factor" is a statement about every finite value. The probe
+//! tuples therefore carry a magnitude dimension (`magnitudes`: 0, subnormals, the smallest normal
+//! numbers, 1e-300, 1e-30, 1, 1e30, 1e300 ... f64::MAX/2, f64::MAX, seeded mantissas dense within
+//! 2^21 of both ends of the normal range; every value in every element position, both signs):
+//! completely in `unitconvert-magnitudes` (every unit pair as xy and as z pair) and
+//! `adapt-magnitudes` (every spelling as from and as to), one rotating tuple in the exhaustive
+//! `unitconvert-pairs`, `adapt-family` and `adapt-pairs`. Oracle `check_scaled`: exact result
+//! (double-double factor applied to the mantissa) normal -> within the ulp tolerance, hence finite;
+//! beyond f64::MAX -> the infinity of the right sign; below the normal range -> right sign and
+//! within `tol` subnormal spacings; zero -> the zero of the product sign.
+//!
 //! A mismatch of an adapt result is additionally classified by replaying the library's
 //! bookkeeping with up to three index slips switched on (see `lib_model`): the failure key
 //! names exactly the set of slips that reproduces the library output, so that a different
@@ -119,6 +130,213 @@ fn ulp_err(got: f64, want: DD) -> f64 {
         return if got == 0.0 { 0.0 } else { f64::INFINITY };
     }
     ((got - want.hi) - want.lo).abs() / ulp_of(want.hi)
+}
+
+// ---------------------------------------------------------------------------------------
+// scaled elements over the whole f64 magnitude range
+// ---------------------------------------------------------------------------------------
+//
+// "Multiplies by the ratio / converts by the factor" is a statement about every finite value, not
+// only about values of order 1..1e7: whenever the exactly scaled value is a normal f64 the
+// delivered one must be that value (within the rounding tolerance) - in particular finite, whatever
+// an intermediate quantity would do -, an exact result beyond f64::MAX must be the infinity of the
+// right sign, and an exact result below the normal range must have the right sign and an absolute
+// error of a few subnormal spacings. The plain double-double product overflows / underflows itself
+// at such values, so the reference is formed on the mantissa: v = m x 2^e, exact = (r x m) x 2^e.
+
+/// 2^k, k in -1074..=1023
+fn pow2(k: i32) -> f64 {
+    if k >= -1022 {
+        f64::from_bits(((k + 1023) as u64) << 52)
+    } else {
+        f64::from_bits(1u64 << (k + 1074))
+    }
+}
+/// x * 2^k without spurious intermediate overflow / underflow
+fn scale2(mut x: f64, mut k: i32) -> f64 {
+    while k > 1000 {
+        x *= pow2(1000);
+        k -= 1000;
+    }
+    while k < -1000 {
+        x *= pow2(-1000);
+        k += 1000;
+    }
+    x * pow2(k)
+}
+/// positive finite non-zero x (also subnormal) = m * 2^e, m in [1, 2)
+fn frexp1(x: f64) -> (f64, i32) {
+    let (x, adj) = if x < f64::MIN_POSITIVE { (x * pow2(64), -64) } else { (x, 0) };
+    let b = x.to_bits();
+    let e = ((b >> 52) & 0x7ff) as i32 - 1023;
+    (f64::from_bits((b & 0x000f_ffff_ffff_ffff) | (1023u64 << 52)), e + adj)
+}
+
+/// where the exactly scaled value lies (and, for normal results, where the input lay)
+#[derive(Clone, Copy, Debug, PartialEq, Eq)]
+enum Rng {
+    /// NaN / infinite input
+    NonFinite,
+    Zero,
+    /// exact result beyond f64::MAX: the infinity of the right sign
+    Overflow,
+    /// exact result within the tolerance of the overflow threshold: infinity or the finite neighbour
+    NearMax,
+    /// exact result below the normal range
+    Subnormal,
+    /// normal result of an input above f64::MAX / 2^21 (times the largest published factor it overflows)
+    NormalFromHuge,
+    /// normal result of an input below 2^21 x the smallest normal number (subnormal inputs included)
+    NormalFromTiny,
+    Normal,
+}
+const RNG_LABELS: [&str; 8] = [
+    "non-finite-input",
+    "zero-input",
+    "exact-result-overflows(inf-required)",
+    "exact-result-at-overflow-threshold",
+    "exact-result-subnormal",
+    "normal-result-of-huge-input(>MAX/2^21)",
+    "normal-result-of-tiny-input(<2^21*MIN_POSITIVE)",
+    "normal-result-of-ordinary-input",
+];
+impl Rng {
+    fn idx(self) -> usize {
+        self as usize
+    }
+    /// suffix of a failure key: the magnitude class is part of the defect signature
+    fn key_suffix(self) -> &'static str {
+        match self {
+            Rng::Overflow | Rng::NearMax | Rng::NormalFromHuge => "[huge-magnitude]",
+            Rng::Subnormal | Rng::NormalFromTiny => "[tiny-magnitude]",
+            Rng::Zero => "[zero]",
+            _ => "",
+        }
+    }
+}
+
+/// histogram of the range classes of the scaled elements of a case + worst error
+#[derive(Clone, Copy, Debug, Default)]
+struct Stats {
+    worst: f64,
+    hist: [u64; 8],
+}
+impl Stats {
+    fn add(&mut self, e: f64, r: Rng) {
+        if e > self.worst {
+            self.worst = e;
+        }
+        self.hist[r.idx()] += 1;
+    }
+    fn record(&self, rec: &mut Rec) {
+        rec.metric("worst_ulp", self.worst);
+        for (i, n) in self.hist.iter().enumerate() {
+            if *n > 0 {
+                rec.count(&format!("scaled-elements:{}", RNG_LABELS[i]), *n);
+            }
+        }
+    }
+    fn extreme(&self) -> bool {
+        [Rng::Overflow, Rng::NearMax, Rng::Subnormal, Rng::NormalFromHuge, Rng::NormalFromTiny].iter().any(|r| self.hist[r.idx()] > 0)
+    }
+}
+
+/// the exact value (sign, w x 2^e with w in [1, 2) as a double-double) of v x r, v finite non-zero, r > 0
+fn exact_scaled(v: f64, r: DD, neg: bool) -> (bool, DD, i32) {
+    let (m, e) = frexp1(v.abs());
+    let w = r.mul(DD::f(m));
+    let (_, k) = frexp1(w.hi);
+    let s = pow2(-k);
+    (v.is_sign_negative() != neg, DD { hi: w.hi * s, lo: w.lo * s }, e + k)
+}
+
+/// the double nearest to v x r (for messages and the loose classification only)
+fn scaled_value(v: f64, r: DD, neg: bool) -> f64 {
+    let s = if neg { -1.0 } else { 1.0 };
+    if v.is_nan() || v.is_infinite() || v == 0.0 {
+        return s * v;
+    }
+    let (n, w, e) = exact_scaled(v, r, neg);
+    let a = scale2(w.hi, e);
+    if n { -a } else { a }
+}
+
+/// Range-aware comparison of a delivered value with (neg ? -1 : 1) x v x r, r > 0 the exact factor:
+/// Ok(error in ulps of the exact result (subnormal spacings below the normal range), class) or
+/// Err(description, class). Tolerance model: `tol` ulp of the exact result as everywhere else; the
+/// spacing below 2^-1022 is the constant 2^-1074; within tol + 2 ulp of 2^1024 both the infinity and
+/// a finite value (within tol ulp) are accepted; sign always (IEEE: products and quotients of non-zero
+/// factors carry the product of the signs, also when they round to zero or overflow).
+fn check_scaled(got: f64, v: f64, r: DD, neg: bool, tol: f64) -> Result<(f64, Rng), (String, Rng)> {
+    assert!(r.hi > 0.0 && r.hi.is_finite(), "harness: factor {r:?}");
+    if v.is_nan() {
+        return if got.is_nan() { Ok((0.0, Rng::NonFinite)) } else { Err((format!("library {got:?}, expected NaN (the source element is NaN)"), Rng::NonFinite)) };
+    }
+    let want_neg = v.is_sign_negative() != neg;
+    let sgn = if want_neg { -1.0 } else { 1.0 };
+    if v.is_infinite() {
+        return if got == sgn * f64::INFINITY { Ok((0.0, Rng::NonFinite)) } else { Err((format!("library {got:?}, expected {:?}", sgn * f64::INFINITY), Rng::NonFinite)) };
+    }
+    if v == 0.0 {
+        return if got == 0.0 && got.is_sign_negative() == want_neg {
+            Ok((0.0, Rng::Zero))
+        } else {
+            Err((format!("library {got:?}, expected {:?} (a zero scaled by a finite non-zero factor is the zero of the product sign)", sgn * 0.0), Rng::Zero))
+        };
+    }
+    let (_, mut w, mut e) = exact_scaled(v, r, neg);
+    let guard = (tol + 2.0) * f64::EPSILON;
+    if e == 1024 && w.hi < 1.0 + guard {
+        w = DD { hi: 2.0 * w.hi, lo: 2.0 * w.lo };
+        e = 1023;
+    }
+    let want = sgn * scale2(w.hi, e);
+    if e >= 1024 {
+        return if got == sgn * f64::INFINITY {
+            Ok((0.0, Rng::Overflow))
+        } else {
+            Err((format!("library {got:?}, expected {:?}: the exactly scaled value, about {:?} x 2^{e}, exceeds f64::MAX", sgn * f64::INFINITY, sgn * w.hi), Rng::Overflow))
+        };
+    }
+    let near_max = e == 1023 && w.hi > 2.0 - guard;
+    let class = if near_max {
+        Rng::NearMax
+    } else if e < -1022 {
+        Rng::Subnormal
+    } else if v.abs() > f64::MAX / pow2(21) {
+        Rng::NormalFromHuge
+    } else if v.abs() < f64::MIN_POSITIVE * pow2(21) {
+        Rng::NormalFromTiny
+    } else {
+        Rng::Normal
+    };
+    if near_max && got == sgn * f64::INFINITY {
+        return Ok((0.0, class));
+    }
+    if !got.is_finite() {
+        return Err((
+            format!("library {got:?}, expected {want:?}: the exactly scaled value (input {v:?} x factor {:?}) is a representable finite number, so the result must be finite whatever an intermediate quantity does", r.hi),
+            class,
+        ));
+    }
+    if got.is_sign_negative() != want_neg {
+        return Err((format!("library {got:?}, expected {want:?}: wrong sign"), class));
+    }
+    // error in units of the spacing of doubles at the exact value: 2^(e-52), below the normal range 2^-1074
+    let ue = (e - 52).max(-1074);
+    let gu = scale2(got.abs(), -ue);
+    let sh = (e - ue).max(-1000);
+    let (wh, wl) = (scale2(w.hi, sh), scale2(w.lo, sh));
+    let err = ((gu - wh) - wl).abs();
+    if err <= tol {
+        Ok((err, class))
+    } else {
+        Err((
+            format!("library {got:?}, expected {want:?} (input {v:?} x exact factor evaluated in double-double), off by {err:.3e} {}, tolerance {tol}",
+                if e < -1022 { "subnormal spacings (2^-1074)" } else { "ulp" }),
+            class,
+        ))
+    }
 }
 
 // ---------------------------------------------------------------------------------------
@@ -364,47 +582,45 @@ fn lib_model(from: &Desc, to: &Desc, inverse_path: bool, s: Slips) -> Map {
     m
 }
 
-/// Strict comparison of one element. Ok(ulp error) or Err(description).
-fn check_elem(got: f64, x: &[f64; 4], e: &Elem, tol: f64) -> Result<f64, String> {
+/// Strict comparison of one element. Ok(ulp error, range class) or Err(description, range class).
+fn check_elem(got: f64, x: &[f64; 4], e: &Elem, tol: f64) -> Result<(f64, Option<Rng>), (String, Rng)> {
     let v = x[e.src];
     if e.num == U::One && e.den == U::One {
         let want = if e.neg { -v } else { v };
         if bits_eq(got, want) {
-            Ok(0.0)
+            Ok((0.0, None))
         } else {
-            Err(format!("library {got:?}, expected exactly {want:?} (bit-identical: pure reordering / sign)"))
+            Err((format!("library {got:?}, expected exactly {want:?} (bit-identical: pure reordering / sign)"), Rng::Normal))
         }
     } else {
-        let mut want = ratio_dd(e.num, e.den).mul(DD::f(v));
-        if e.neg {
-            want = want.neg();
-        }
-        let err = ulp_err(got, want);
-        if err <= tol {
-            Ok(err)
-        } else {
-            Err(format!("library {got:?}, expected {:?} (exact ratio {}/{} evaluated in double-double), off by {err:.3e} ulp, tolerance {tol} ulp", want.hi, e.num.name(), e.den.name()))
+        match check_scaled(got, v, ratio_dd(e.num, e.den), e.neg, tol) {
+            Ok((err, c)) => Ok((err, Some(c))),
+            Err((t, c)) => Err((format!("{t} [exact ratio {}/{}]", e.num.name(), e.den.name()), c)),
         }
     }
 }
 
-/// Strict comparison of whole tuples against a map. Returns the first mismatch text.
-fn compare_map(m: &Map, input: &[[f64; 4]], out: &[Coor4D], tol: f64, worst: &mut f64) -> Option<String> {
+/// Strict comparison of whole tuples against a map. Returns the first mismatch text and the
+/// magnitude class of the mismatching element.
+fn compare_map(m: &Map, input: &[[f64; 4]], out: &[Coor4D], tol: f64, st: &mut Stats) -> Option<(String, Rng)> {
     for (p, x) in input.iter().enumerate() {
         for i in 0..4 {
             match check_elem(out[p][i], x, &m[i], tol) {
-                Ok(e) => {
-                    if e > *worst {
-                        *worst = e;
+                Ok((e, c)) => {
+                    if let Some(c) = c {
+                        st.add(e, c);
                     }
                 }
-                Err(t) => {
-                    return Some(format!(
-                        "tuple {p} element {i} ({}): {t}\n  input    {:?}\n  library  {}\n  expected {:?}",
-                        elem_text(i, &m[i]),
-                        x,
-                        fmt_c4(&out[p]),
-                        expected_tuple(m, x)
+                Err((t, c)) => {
+                    return Some((
+                        format!(
+                            "tuple {p} element {i} ({}): {t}\n  input    {:?}\n  library  {}\n  expected {:?}",
+                            elem_text(i, &m[i]),
+                            x,
+                            fmt_c4(&out[p]),
+                            expected_tuple(m, x)
+                        ),
+                        c,
                     ))
                 }
             }
@@ -417,12 +633,11 @@ fn expected_tuple(m: &Map, x: &[f64; 4]) -> [f64; 4] {
     let mut o = [0.0; 4];
     for i in 0..4 {
         let e = &m[i];
-        let mut w = ratio_dd(e.num, e.den).mul(DD::f(x[e.src]));
-        if e.num == U::One && e.den == U::One {
-            w = DD::f(x[e.src]);
-        }
-        let v = if w.hi == 0.0 { 0.0f64.copysign(x[e.src]) } else { w.hi };
-        o[i] = if e.neg { -v } else { v };
+        o[i] = if e.num == U::One && e.den == U::One {
+            if e.neg { -x[e.src] } else { x[e.src] }
+        } else {
+            scaled_value(x[e.src], ratio_dd(e.num, e.den), e.neg)
+        };
     }
     o
 }
@@ -512,6 +727,68 @@ fn probes(seed: u64, n: usize) -> Vec<P4> {
     v
 }
 
+/// The magnitude dimension of the probe values: positive values over the whole finite f64 range.
+/// Fixed landmarks (0, the smallest / a few / the largest subnormal, the smallest normal number and
+/// its neighbour, 1e-300, 1e-30, 1, 1e30, 1e300, f64::MAX/4, /2, its predecessor, f64::MAX) and
+/// seeded generic mantissas at binary exponents that are dense within 2^21 (the largest ratio of two
+/// published unit factors, kmi/mm = 1.852e6) of both ends of the normal range - there the exact
+/// result stays representable while any detour through a larger / smaller intermediate does not -
+/// and sparse in between.
+fn magnitudes(seed: u64) -> Vec<f64> {
+    let mut v = vec![
+        0.0,
+        f64::from_bits(1),
+        f64::from_bits(3),
+        1.0e-320,
+        f64::from_bits(0x000f_ffff_ffff_ffff),
+        f64::MIN_POSITIVE,
+        f64::from_bits(f64::MIN_POSITIVE.to_bits() + 1),
+        1.0e-307,
+        1.0e-305,
+        1.0e-300,
+        1.0e-30,
+        1.0,
+        1.0e30,
+        1.0e300,
+        1.0e305,
+        1.0e306,
+        f64::MAX / 4.0,
+        f64::MAX / 2.0,
+        1.0e308,
+        f64::from_bits(f64::MAX.to_bits() - 1),
+        f64::MAX,
+    ];
+    const EXPONENTS: [i32; 30] = [
+        -1070, -1050, -1035, -1026, -1023, -1022, -1021, -1019, -1016, -1013, -1011, -1008, -1004, -1001, -997, -100, 0, 100, 997, 1001, 1003, 1006, 1009, 1011,
+        1013, 1016, 1019, 1021, 1022, 1023,
+    ];
+    for (k, e) in EXPONENTS.iter().enumerate() {
+        // 1 <= m < 2 with 52 random mantissa bits; below the normal range the low bits drop out exactly
+        let m = 1.0 + frac(seed ^ 0x3A6, k as u64);
+        v.push(scale2(m, *e));
+    }
+    v
+}
+
+/// Probe tuples carrying the magnitude dimension: every magnitude in every element position with
+/// either sign (tuple k of pass s: element j = (-1)^(j+s) x magnitude[k + offset_j]); the values of
+/// one tuple lie far apart, so the fourth (never scaled by unitconvert) element is extreme as well.
+fn mag_probes(seed: u64) -> Vec<P4> {
+    let m = magnitudes(seed);
+    let n = m.len();
+    let mut v = Vec::with_capacity(2 * n);
+    for s in 0..2usize {
+        for k in 0..n {
+            let e = |j: usize| {
+                let x = m[(k + [0, 13, 26, 38][j]) % n];
+                if (j + s) % 2 == 0 { x } else { -x }
+            };
+            v.push(p4(e(0), e(1), e(2), e(3)));
+        }
+    }
+    v
+}
+
 // ---------------------------------------------------------------------------------------
 // adapt: pairs
 // ---------------------------------------------------------------------------------------
@@ -559,23 +836,32 @@ fn check_adapt(def: &str, dfrom: &str, dto: &str, inv_flag: bool, ctx: u8, fwd: 
     let lm = lib_model(&f, &t, inverse_path, none);
     assert!((0..4).all(|i| same_factor(&lm[i], &want[i])), "harness: models disagree for {def}: {lm:?} vs {want:?}");
 
-    let mut worst = 0.0;
-    if let Some(mis) = compare_map(&want, input, &out, TOL_ULP, &mut worst) {
+    let mut st = Stats::default();
+    if let Some((mis, rng)) = compare_map(&want, input, &out, TOL_ULP, &mut st) {
         let mut key = "adapt-wrong-output".to_string();
         let mut expl = "the library output is not explained by any of the modelled index slips".to_string();
-        for s in SLIP_SETS {
-            let m = lib_model(&f, &t, inverse_path, s);
-            if matches_loose(&m, input, &out) {
-                key = format!("adapt-mult-misindexed[{}]", s.label());
-                expl = format!("the library output equals the mapping {{{}}}, i.e. the bookkeeping with the index slip(s) [{}]", map_text(&m), s.label());
-                break;
+        if matches_loose(&want, input, &out) {
+            // right elements, right factors to 1e-12: a rounding / magnitude matter, not a bookkeeping slip
+            expl = "the library output agrees with the documented mapping to 1e-12 relative: the deviation is one of rounding / magnitude, not of bookkeeping".to_string();
+        } else {
+            for s in SLIP_SETS {
+                let m = lib_model(&f, &t, inverse_path, s);
+                if matches_loose(&m, input, &out) {
+                    key = format!("adapt-mult-misindexed[{}]", s.label());
+                    expl = format!("the library output equals the mapping {{{}}}, i.e. the bookkeeping with the index slip(s) [{}]", map_text(&m), s.label());
+                    break;
+                }
             }
         }
+        key.push_str(rng.key_suffix());
         vfail!(key, "'{def}' applied {dir:?} ({}): {mis}\n  documented mapping {{{}}}\n  {expl}",
             if inverse_path { format!("must deliver '{dfrom}' from '{dto}'") } else { format!("must deliver '{dto}' from '{dfrom}'") },
             map_text(&want));
     }
-    rec.metric("worst_ulp", worst);
+    st.record(rec);
+    if st.extreme() {
+        rec.class("scaled-element-at-extreme-magnitude");
+    }
     // classes
     let perm = (0..4).any(|i| want[i].src != i);
     let sign = (0..4).any(|i| want[i].neg);
@@ -858,9 +1144,10 @@ fn check_macro(c: &MacroCase, rec: &mut Rec) -> CaseResult {
         order.reverse();
     }
     let maps: Vec<Map> = order.iter().map(|s| macro_map(s, inverse).expect("macro name")).collect();
+    let mut st = Stats::default();
     let mut worst = 0.0;
     if maps.len() == 1 {
-        if let Some(mis) = compare_map(&maps[0], &input, &out, TOL_ULP, &mut worst) {
+        if let Some((mis, _)) = compare_map(&maps[0], &input, &out, TOL_ULP, &mut st) {
             vfail!(format!("macro-wrong-output:{}", c.steps[0]), "'{def}' ({dir:?}, {}): {mis}\n  documented mapping {{{}}}",
                 if c.plain { "Plain" } else { "Minimal" }, map_text(&maps[0]));
         }
@@ -897,7 +1184,7 @@ fn check_macro(c: &MacroCase, rec: &mut Rec) -> CaseResult {
             }
         }
     }
-    rec.metric("worst_ulp", worst);
+    rec.metric("worst_ulp", worst.max(st.worst));
     rec.class(if c.steps.len() == 1 { "single" } else { "two-step" });
     if maps.iter().any(|m| (0..4).any(|i| m[i].src != i || m[i].num != m[i].den)) {
         rec.nontrivial(&(def, c.fwd, c.plain));
@@ -1293,19 +1580,24 @@ fn check_conv(c: &ConvCase, rec: &mut Rec) -> CaseResult {
     vensure!(n == input.len(), "unitconvert-count", "'{def}' ({dir:?}) on {} tuples reports {n} successes", input.len());
     let inverse = c.inv_flag != !c.fwd;
     let (rxy, rz) = if inverse { (pub_ratio(u[1], u[0]), pub_ratio(u[3], u[2])) } else { (pub_ratio(u[0], u[1]), pub_ratio(u[2], u[3])) };
+    let mut st = Stats::default();
     for (p, x) in input.iter().enumerate() {
         for i in 0..3 {
             let r = if i < 2 { rxy } else { rz };
-            let want = r.mul(DD::f(x[i]));
-            let e = ulp_err(out[p][i], want);
-            rec.metric("worst_ulp", e);
-            vensure!(e <= TOL_UC_ULP, "unitconvert-wrong-factor",
-                "'{def}' ({dir:?}): input {:?} -> library {}; element {i} must be {:?} = input x ({} / {}){} (off by {e:.3e} ulp, tolerance {TOL_UC_ULP} ulp)",
-                x, fmt_c4(&out[p]), want.hi,
-                if i < 2 { u[0].text } else { u[2].text }, if i < 2 { u[1].text } else { u[3].text }, if inverse { " inverted" } else { "" });
+            match check_scaled(out[p][i], x[i], r, false, TOL_UC_ULP) {
+                Ok((e, cl)) => st.add(e, cl),
+                Err((t, cl)) => vfail!(format!("unitconvert-wrong-factor{}", cl.key_suffix()),
+                    "'{def}' ({dir:?}): input {:?} -> library {}; element {i} must be input x ({} / {}){}: {t}",
+                    x, fmt_c4(&out[p]),
+                    if i < 2 { u[0].text } else { u[2].text }, if i < 2 { u[1].text } else { u[3].text }, if inverse { " inverted" } else { "" }),
+            }
         }
         vensure!(bits_eq(out[p][3], x[3]), "unitconvert-touches-time",
             "'{def}' ({dir:?}): input {:?} -> library {}; the fourth element must stay untouched (time units are documented as unsupported)", x, fmt_c4(&out[p]));
+    }
+    st.record(rec);
+    if st.extreme() {
+        rec.class("scaled-element-at-extreme-magnitude");
     }
     rec.class(if !same_kind { "mixed-kind-accepted" } else if is_angular(u[0]) { "angular-xy" } else { "linear-xy" });
     if c.xy_in != c.xy_out || c.z_in != c.z_out {
@@ -1867,6 +2159,56 @@ fn selftest() {
         let labels: std::collections::BTreeSet<String> = (0..N_KINDS).map(|k| kind_label(k as u8)).collect();
         assert_eq!(labels.len(), N_KINDS);
     }
+    // range-aware comparison of scaled elements
+    {
+        let km_mi = pub_ratio(published("km").unwrap(), published("mi").unwrap());
+        let one = DD::f(1.0);
+        let deg = ratio_dd(U::One, U::Deg); // 57.29...
+        let inf = f64::INFINITY;
+        assert_eq!(frexp1(f64::from_bits(1)), (1.0, -1074));
+        assert_eq!(frexp1(f64::MAX), (2.0 - f64::EPSILON, 1023));
+        assert_eq!(scale2(1.5, -1074), f64::from_bits(2)); // ties to even
+        assert_eq!(scale2(scale2(1.25, 1023), -2046), scale2(1.25, -1023));
+        // 1e306 km is 6.2137e305 mi: representable, so it must come out finite
+        assert!(matches!(check_scaled(1e306 * (1000.0 / 1609.344), 1e306, km_mi, false, TOL_UC_ULP), Ok((_, Rng::NormalFromHuge))));
+        assert!(matches!(check_scaled(inf, 1e306, km_mi, false, TOL_UC_ULP), Err((_, Rng::NormalFromHuge))));
+        assert!(matches!(check_scaled(f64::MAX / 2.0, f64::MAX / 2.0, one, false, TOL_UC_ULP), Ok((e, Rng::NormalFromHuge)) if e == 0.0));
+        assert!(matches!(check_scaled(f64::MAX, f64::MAX, one, false, TOL_UC_ULP), Ok((_, Rng::NearMax))));
+        assert!(matches!(check_scaled(inf, f64::MAX, one, false, TOL_UC_ULP), Ok((_, Rng::NearMax))));
+        assert!(check_scaled(f64::MAX / 2.0, f64::MAX, one, false, TOL_UC_ULP).is_err());
+        // exact overflow: the infinity of the right sign and nothing else
+        assert!(matches!(check_scaled(inf, f64::MAX, deg, false, TOL_ULP), Ok((_, Rng::Overflow))));
+        assert!(matches!(check_scaled(-inf, f64::MAX, deg, true, TOL_ULP), Ok((_, Rng::Overflow))));
+        assert!(check_scaled(-inf, f64::MAX, deg, false, TOL_ULP).is_err());
+        assert!(check_scaled(f64::MAX, f64::MAX, deg, false, TOL_ULP).is_err());
+        // below the normal range: sign and a few subnormal spacings
+        let tiny = f64::from_bits(1);
+        assert!(matches!(check_scaled(0.0, tiny, DD::f(0.001), false, TOL_ULP), Ok((_, Rng::Subnormal))));
+        assert!(check_scaled(-0.0, tiny, DD::f(0.001), false, TOL_ULP).is_err());
+        assert!(matches!(check_scaled(-0.0, -tiny, DD::f(0.001), false, TOL_ULP), Ok((_, Rng::Subnormal))));
+        assert!(matches!(check_scaled(f64::MIN_POSITIVE / 2.0, f64::MIN_POSITIVE, DD::f(0.5), false, TOL_ULP), Ok((e, Rng::Subnormal)) if e == 0.0));
+        assert!(check_scaled(f64::MIN_POSITIVE / 2.0 + 7.0 * tiny, f64::MIN_POSITIVE, DD::f(0.5), false, TOL_ULP).is_err());
+        assert!(check_scaled(f64::MIN_POSITIVE / 2.0 + 6.0 * tiny, f64::MIN_POSITIVE, DD::f(0.5), false, TOL_ULP).is_ok());
+        // a subnormal input with a normal result keeps full relative accuracy
+        let s = f64::from_bits(0x000f_ffff_ffff_ffff);
+        assert!(matches!(check_scaled(s * 57.29577951308232, s, deg, false, TOL_ULP), Ok((_, Rng::NormalFromTiny))));
+        assert!(check_scaled(s * 57.29577951308232 * (1.0 + 16.0 * f64::EPSILON), s, deg, false, TOL_ULP).is_err());
+        // zeros keep the product sign
+        assert!(matches!(check_scaled(-0.0, 0.0, deg, true, TOL_ULP), Ok((_, Rng::Zero))));
+        assert!(check_scaled(0.0, 0.0, deg, true, TOL_ULP).is_err());
+        // ordinary values: same verdicts as the plain double-double comparison
+        let w = deg.mul(DD::f(23.456789012345678));
+        assert!(matches!(check_scaled(w.hi, 23.456789012345678, deg, false, TOL_ULP), Ok((e, Rng::Normal)) if (e - ulp_err(w.hi, w)).abs() < 1e-9));
+        // every magnitude in every position with either sign
+        let (m, pm) = (magnitudes(7), mag_probes(7));
+        assert_eq!(pm.len(), 2 * m.len());
+        for j in 0..4 {
+            for x in m.iter() {
+                assert!(pm.iter().any(|p| bits_eq(p[j].0, *x)) && pm.iter().any(|p| bits_eq(p[j].0, -*x)));
+            }
+        }
+        assert!(m.iter().all(|x| x.is_finite() && *x >= 0.0));
+    }
     // double-double constants against the correctly rounded doubles
     assert_eq!(ratio_dd(U::Deg, U::One).hi, 0.017453292519943295);
     assert_eq!(ratio_dd(U::One, U::Deg).hi, 57.29577951308232);
@@ -1914,6 +2256,7 @@ fn main() {
     run.track_inflight(false);
     run.assume("adapt: the angular suffix applies to the e/n/w/s (horizontal) elements only, wherever they stand; u/d and f/p elements are never scaled (the documentation calls _deg/_gon/_rad 'angular representations' and the internal format enuf_rad)");
     run.assume("adapt: elements whose declared factor is 1 (no angular unit on either side, or a non-horizontal axis) are compared bit for bit; scaled elements (also deg->deg, gon->gon) within 6 ulp (adapt) / 8 ulp (unitconvert) of the exact ratio evaluated in double-double");
+    run.assume("magnitudes: the scaling statements are taken over all finite f64 values: a scaled element whose exactly scaled value is a normal f64 must be within the same ulp tolerance of it (so it is finite although input x some intermediate factor would overflow, and keeps its precision although input x some intermediate factor would be subnormal); an exact value beyond f64::MAX must be the infinity of the right sign (within tol + 2 ulp of 2^1024 the infinity or the finite neighbour); an exact value below the normal range must have the right sign and lie within tol subnormal spacings (2^-1074); a zero scaled by a finite factor is the zero of the product sign (IEEE 754). Container kinds are exercised with ordinary magnitudes only (the f32 element type has its own range)");
     run.assume("axisswap: accepted lists are exactly the signed permutations of 1..k, k <= 4 (index > k is 'out of range', as in PROJ and the module's own test order=2,3)");
     run.assume("unitconvert: published factors = the PROJ unit table (typed into the harness as exact rationals; U.S. survey units as k/3937, whose printed 15/16-digit expansions are checked to their last digit); combinations mixing linear and angular units, and angular z units, may be rejected or converted by the plain ratio - both are accepted");
     run.assume("containers: the declared mapping acts on the 4-D view that src/coordinate/set.rs documents for get_coord (Coor2D: height 0, epoch NaN; Coor3D: epoch NaN; Coor32: its f32 values widened; (set, h, t) / (set, t): the fixed values), and what the operator delivers is kept in the dimensions the element type stores (Coor32: rounded to f32); single operators only (2-D/3-D containers drop Z/T between pipeline steps by design); where an adapter overrides a dimension the element type stores ((set, h, t) around Coor3D/Coor4D, (set, t) around Coor4D) a non-trivial mapping must write the mapped view into it, an identity mapping (adapt's documented no-op shortcut) may also leave it untouched");
@@ -1925,13 +2268,16 @@ fn main() {
     let pr = probes(seed, np);
 
     // ---- adapt: every spelling against the enuf family (both roles) -----------------------
+    let mg = mag_probes(seed);
+    run.note("magnitude_probe_tuples", serde_json::json!(mg.len()));
     {
         let pr = pr.clone();
+        let mg = mg.clone();
         // the 80 spellings in internal order: e|w n|s u|d f|p x 5 suffix forms (perm index 0)
         let fam = 80usize;
         run.enumerate(
             "adapt-family",
-            "every one of the 1920 spellings as `from` against the 80 spellings in e,n,u,f order (16 sign combinations x 5 suffix forms) as `to`, and the transposed set; definition variant {from/to, to/from argument order, `inv` with swapped roles, Plain context} and direction rotate with the index; non-trivial as in adapt-pairs",
+            "every one of the 1920 spellings as `from` against the 80 spellings in e,n,u,f order (16 sign combinations x 5 suffix forms) as `to`, and the transposed set; definition variant {from/to, to/from argument order, `inv` with swapped roles, Plain context} and direction rotate with the index; probes: generic tuples plus one tuple of the magnitude set (hash of the index); non-trivial as in adapt-pairs",
             2 * N_SPELL * fam,
             move |i| {
                 let a = i % N_SPELL;
@@ -1939,7 +2285,9 @@ fn main() {
                 let transposed = i / (N_SPELL * fam) == 1;
                 let (fi, ti) = if transposed { (b, a) } else { (a, b) };
                 let r = (a / 5 + a % 5 + b / 5 + 3 * (b % 5) + a / 80 + usize::from(transposed)) % 8;
-                PairCase { from: spelling(fi), to: spelling(ti), variant: (r / 2) as u8, fwd: r % 2 == 0, probes: pr.clone() }
+                let mut probes = pr.clone();
+                probes.push(mg[(splitmix(i as u64 ^ 0xFA31) % mg.len() as u64) as usize]);
+                PairCase { from: spelling(fi), to: spelling(ti), variant: (r / 2) as u8, fwd: r % 2 == 0, probes }
             },
             check_pair,
         );
@@ -1948,15 +2296,18 @@ fn main() {
     // ---- adapt: all from/to pairs -----------------------------------------------------
     {
         let pr = pr.clone();
+        let mg = mg.clone();
         // index space: 1920 x 1920 pairs x 4 definition variants x 2 directions
         let total = N_SPELL * N_SPELL * 8;
         let mk = move |k: usize| {
             let ti = k % N_SPELL;
             let fi = (k / N_SPELL) % N_SPELL;
             let r = k / (N_SPELL * N_SPELL);
-            PairCase { from: spelling(fi), to: spelling(ti), variant: (r / 2) as u8, fwd: r % 2 == 0, probes: pr.clone() }
+            let mut probes = pr.clone();
+            probes.push(mg[(splitmix(k as u64 ^ 0x9A15) % mg.len() as u64) as usize]);
+            PairCase { from: spelling(fi), to: spelling(ti), variant: (r / 2) as u8, fwd: r % 2 == 0, probes }
         };
-        let rule = "(from, to) over all 1920 x 1920 spellings (24 orders x 16 sign combinations x {none,_rad,_deg,_gon,_any}) x definition variants {from/to, to/from argument order, `inv` with swapped roles, Plain context} x directions {Fwd, Inv}; non-trivial = some element moves and its multiplier (sign x angular factor) differs from that of the element it displaces; distinct by definition text and direction";
+        let rule = "(from, to) over all 1920 x 1920 spellings (24 orders x 16 sign combinations x {none,_rad,_deg,_gon,_any}) x definition variants {from/to, to/from argument order, `inv` with swapped roles, Plain context} x directions {Fwd, Inv}; probes: generic tuples plus one tuple of the magnitude set (hash of the index); non-trivial = some element moves and its multiplier (sign x angular factor) differs from that of the element it displaces; distinct by definition text and direction";
         if thorough {
             // every pair in both directions; the definition variant rotates with the pair
             run.enumerate(
@@ -1996,6 +2347,27 @@ fn main() {
             N_SPELL * 4,
             move |i| SideCase { x: spelling(i % N_SPELL), fwd: (i / N_SPELL) % 2 == 0, ctx: if i / (2 * N_SPELL) == 0 { 0 } else { 2 }, probes: pr.clone() },
             check_side,
+        );
+    }
+
+    // ---- adapt: the angular / sign scaling over the whole magnitude range ---------------------
+    {
+        let mg = mg.clone();
+        let nmg = mg.len();
+        let draws = if thorough { 8 } else { 1 };
+        run.enumerate(
+            "adapt-magnitudes",
+            &format!("every one of the 1920 spellings once as `from` and once as `to`, x both directions, the other descriptor drawn from all 1920 by a hash of the index ({draws} draw(s)), definition variant {{from/to, to/from, `inv` with swapped roles, Plain}} by hash, each on the {nmg} magnitude tuples: every value of the magnitude set (0, smallest/largest subnormal, smallest normal, 1e-300, 1e-30, 1, 1e30, 1e300, f64::MAX/2, f64::MAX, seeded mantissas at 30 binary exponents dense within 2^21 of both ends of the normal range) in every element position with either sign. Oracle: pure elements bit for bit; a scaled element whose exactly scaled value (factor in double-double, applied to the mantissa) is a normal f64 must be within 6 ulp of it, in particular finite; beyond f64::MAX it must be the infinity of the right sign (within 8 ulp of the threshold: either); below the normal range right sign and within 6 subnormal spacings; a zero stays the zero of the product sign; non-trivial as in adapt-pairs"),
+            N_SPELL * 4 * draws,
+            move |i| {
+                let s = i % N_SPELL;
+                let r = (i / N_SPELL) % 4;
+                let hsh = splitmix(seed ^ splitmix(i as u64 ^ 0x3A61_7000));
+                let partner = (hsh % N_SPELL as u64) as usize;
+                let (fi, ti) = if r % 2 == 0 { (s, partner) } else { (partner, s) };
+                PairCase { from: spelling(fi), to: spelling(ti), variant: ((hsh >> 32) % 4) as u8, fwd: r / 2 == 0, probes: mg.clone() }
+            },
+            check_pair,
         );
     }
 
@@ -2159,16 +2531,39 @@ fn main() {
             check_published_name,
         );
         let prc = probes(seed ^ 0xC0, 2 + usize::from(thorough));
+        let mgc = mg.clone();
         let reps = if thorough { 8 } else { 1 };
         run.enumerate(
             "unitconvert-pairs",
-            "every (xy_in, xy_out, z_in, z_out) over the 24 published names (24^4 = 331776); quick: direction, `inv` flag and omission of default-valued parameters rotate with the index, thorough: all 8 combinations; exact ratio of the published factors on x, y (xy) and z, t untouched; cases naming a published unit that does not resolve on its own are skipped and counted (excluded_known); non-trivial = some unit changes",
+            "every (xy_in, xy_out, z_in, z_out) over the 24 published names (24^4 = 331776); quick: direction, `inv` flag and omission of default-valued parameters rotate with the index, thorough: all 8 combinations; probes: generic tuples plus one tuple of the magnitude set (hash of the index); exact ratio of the published factors on x, y (xy) and z, t untouched; cases naming a published unit that does not resolve on its own are skipped and counted (excluded_known); non-trivial = some unit changes",
             331_776 * reps,
             move |i| {
                 let k = i % 331_776;
                 let r = if reps == 8 { i / 331_776 } else { (k / 24 + k / 576 + k) % 8 };
                 let nm = |j: usize| PUBLISHED[j % 24].name.to_string();
-                ConvCase { xy_in: nm(k), xy_out: nm(k / 24), z_in: nm(k / 576), z_out: nm(k / 13824), omit_defaults: r & 4 != 0, inv_flag: r & 2 != 0, fwd: r & 1 == 0, probes: prc.clone() }
+                let mut probes = prc.clone();
+                probes.push(mgc[(splitmix(i as u64 ^ 0xC3A6) % mgc.len() as u64) as usize]);
+                ConvCase { xy_in: nm(k), xy_out: nm(k / 24), z_in: nm(k / 576), z_out: nm(k / 13824), omit_defaults: r & 4 != 0, inv_flag: r & 2 != 0, fwd: r & 1 == 0, probes }
+            },
+            check_conv,
+        );
+        // the ratio over the whole magnitude range: every unit pair as xy pair and as z pair
+        let mgm = mg.clone();
+        let nmg = mgm.len();
+        let draws = if thorough { 4 } else { 1 };
+        run.enumerate(
+            "unitconvert-magnitudes",
+            &format!("every (in, out) pair of the 24 published names once as (xy_in, xy_out) and once as (z_in, z_out), the other pair drawn from all 576 by a hash of the index ({draws} draw(s)), x both directions x {{unitconvert, unitconvert inv}}, omission of default-valued parameters by hash, each on the {nmg} magnitude tuples: every value of the magnitude set (0, smallest/largest subnormal, smallest normal, 1e-300, 1e-30, 1, 1e30, 1e300, f64::MAX/2, f64::MAX, seeded mantissas at 30 binary exponents dense within 2^21 = the largest factor ratio of both ends of the normal range) in every element position with either sign. Oracle: where the exactly scaled value (published ratio in double-double, applied to the mantissa) is a normal f64 the element must be within 8 ulp of it, in particular finite whatever an intermediate (pivot) quantity does; beyond f64::MAX the infinity of the right sign (within 10 ulp of the threshold: either); below the normal range right sign and within 8 subnormal spacings; a zero stays the zero of its sign; the fourth element bit-identical; non-trivial = some unit changes"),
+            576 * 2 * 4 * draws,
+            move |i| {
+                let j = i % 576;
+                let r = (i / 576) % 2;
+                let d = (i / 1152) % 4;
+                let hsh = splitmix(seed ^ splitmix(i as u64 ^ 0x3A6C_7000));
+                let other = (hsh % 576) as usize;
+                let (xy, z) = if r == 0 { (j, other) } else { (other, j) };
+                let nm = |q: usize| PUBLISHED[q % 24].name.to_string();
+                ConvCase { xy_in: nm(xy), xy_out: nm(xy / 24), z_in: nm(z), z_out: nm(z / 24), omit_defaults: (hsh >> 32) & 1 != 0, inv_flag: d & 2 != 0, fwd: d & 1 == 0, probes: mgm.clone() }
             },
             check_conv,
         );
@@ -2262,5 +2657,5 @@ fn main() {
         );
     }
 
-    run.finish("finite domains enumerated completely: adapt 1920x1920 descriptor pairs x directions (x definition variants), 4096 words x 21 suffix forms, eight macros; axisswap all 177155 index lists over -5..5 up to length 5; unitconvert all 24^4 unit combinations and every unit table entry; each compared with a table-driven reference written from the documentation (reordering/sign bit-identical, scaling within 6 ulp (adapt) / 8 ulp (unitconvert) of the exact ratio); the same reference on the documented 4-D view of all 36 container kinds (Vec/array/slice of Coor4D/3D/2D/32, plain and in the (set,h,t)/(set,t) adapters): axisswap all 442 orders x flag x direction, adapt every spelling as from and as to in both directions, unitconvert every xy and every z unit pair in both directions, per kind");
+    run.finish("finite domains enumerated completely: adapt 1920x1920 descriptor pairs x directions (x definition variants), 4096 words x 21 suffix forms, eight macros; axisswap all 177155 index lists over -5..5 up to length 5; unitconvert all 24^4 unit combinations and every unit table entry; each compared with a table-driven reference written from the documentation (reordering/sign bit-identical, scaling within 6 ulp (adapt) / 8 ulp (unitconvert) of the exact ratio); the scaling over the whole finite f64 magnitude range (subnormals, smallest normals ... f64::MAX, every element position, both signs) for every unit pair (as xy and as z pair, both directions, with and without inv) and every adapt spelling (as from and as to, both directions): normal exact result -> within the ulp tolerance and finite, exact overflow -> infinity of the right sign, exact subnormal -> right sign and a few subnormal spacings; the same reference on the documented 4-D view of all 36 container kinds (Vec/array/slice of Coor4D/3D/2D/32, plain and in the (set,h,t)/(set,t) adapters): axisswap all 442 orders x flag x direction, adapt every spelling as from and as to in both directions, unitconvert every xy and every z unit pair in both directions, per kind");
 }
